@@ -6,6 +6,7 @@ import Drv.DepGraph
 import Drv.EnvP
 import Drv.RunCmd
 import Drv.Report
+import Drv.Use
 open Lean
 
 def dispatch (model : String) (j : Json) : Except String Json :=
@@ -18,6 +19,7 @@ def dispatch (model : String) (j : Json) : Except String Json :=
   | "envp" => Drv.EnvP.run j
   | "runcmd" => Drv.RunCmd.run j
   | "report" => Drv.Report.run j
+  | "use" => Drv.Use.run j
   | "diagreads" => Drv.Diag.runReads j
   | _ => throw s!"bad-model {model}"
 
